@@ -292,6 +292,24 @@ def c20(c):
                     "(the caller's value when direct); any refused call => Err; distinct = set-ups")
 
 
+def c17(c):
+    c.mc("MC_Serial", mc_cfg("MC_Serial", c.tier), workers=8, timeout=1800, coverage=False)
+    shards = 8 if c.tier == "thorough" else 2
+    files, n, _ = vlib.record("C17", c.tier, c.seed, shards)
+    c.validate("Trace_Twin", "Trace_Twin.cfg", files, ["record", "C17"], procs=PROCS, timeout=3000)
+    c.assumptions += ["single-threaded duplex port pair: whenever the controller side has written a complete line the bridge is pumped, so the run is deterministic",
+                      "sign types whose page fits 5 chunks (the serial path really sleeps 30 ms per chunk); 1..2 signs, both flip styles, addresses {3,0,0xFFFF,0x100,random}",
+                      "failure classes may differ between the twins (a missing reply is 'no reply' directly and a read time-out on the wire); success, "
+                      "successful outcomes and the signs' state/type/pages must agree"]
+    return c.finish("model_checking",
+                    "M: on the model the composition Controller o SerialBus o wire o Odk o Bus gives, call by call over a 9-call scenario on two bus "
+                    "populations, the same success, outcome and sign projections as Controller o Bus (MC_Serial!TwinOK, built from Frame/Message/"
+                    "VirtualSign/Controller); V: the real Sign drives real virtual signs directly and through SerialSignBus + Odk over an in-process "
+                    "duplex port; configure / send / show / load-next / shut-down / re-configure sequences, calls that must fail, and raw unknown and "
+                    "invalid lines injected at the bridge; TLC checks twin equality per call and the bridge rule per Odk::process_message call; "
+                    "distinct = controller calls and bridged lines")
+
+
 # --------------------------------------------------------------------------- C08
 def c08(c):
     cfgs = ["thorough", "thorough_auto", "thorough_tiny"] if c.tier == "thorough" else ["quick", "quick_auto"]
@@ -419,4 +437,4 @@ def c09(c):
                     "the recorded conversations are checked by the same monitor in TLC; distinct = conversations")
 
 
-CHECKS = {"C15": c15, "C16": c16, "C18": c18, "C20": c20, "C06": c06, "C07": c07, "C19": c19, "C08": c08, "C09": c09, "C10": c10, "C11": c11, "C12": c12, "C13": c13, "C14": c14, "C01": c01, "C02": c02, "C03": c03, "C04": c04, "C05": c05}
+CHECKS = {"C17": c17, "C15": c15, "C16": c16, "C18": c18, "C20": c20, "C06": c06, "C07": c07, "C19": c19, "C08": c08, "C09": c09, "C10": c10, "C11": c11, "C12": c12, "C13": c13, "C14": c14, "C01": c01, "C02": c02, "C03": c03, "C04": c04, "C05": c05}
